@@ -10,7 +10,7 @@ from praatio.utilities import errors
 
 
 def numToStr(inputNum: float) -> str:
-    if isclose(inputNum, int(inputNum)):
+    if inputNum == int(inputNum):
         retVal = "%d" % inputNum
     else:
         retVal = "%s" % repr(inputNum)
